@@ -754,14 +754,15 @@ class Fetcher:
         """
         # Make the API request for all titles in the batch
         if title is None:
-            title_to_authors = api.get_contributors(self.titles_pending_contributor_lookup[api])
+            titles = list(self.titles_pending_contributor_lookup[api])
         else:
-            title_to_authors = api.get_contributors([title])
+            titles = [title]
+        title_to_authors = api.get_contributors(titles)
 
         # Process the results for each title
         authors_dict = {}
         title: str
-        for title in self.titles_pending_contributor_lookup[api]:
+        for title in titles:
             # Skip if the title is not in the results (e.g., if it was redirected)
             if title not in title_to_authors:
                 continue
